@@ -82,6 +82,9 @@ func (sh *Shared) addViolation(v *Violation) {
 	sh.mu.Lock()
 	defer sh.mu.Unlock()
 	key := v.Kind + "|" + v.Label + "|" + v.Msg
+	if v.Kind == "panic" {
+		key = v.Kind + "|" + PanicFingerprint(v.Msg)
+	}
 	if sh.vioKeys[key] {
 		return
 	}
@@ -309,4 +312,28 @@ func Run(p *Program, entry *ssa.Function, cfg *Config, nworkers int, maxSamples 
 	}
 	sort.Strings(rr.Funcs)
 	return rr
+}
+
+// PanicFingerprint reduces a panic message to its stable part: source file
+// and kind of panic (line numbers and values move with unrelated edits).
+func PanicFingerprint(msg string) string {
+	first := msg
+	if i := strings.IndexByte(first, '\n'); i >= 0 {
+		first = first[:i]
+	}
+	if i := strings.LastIndex(first, " at "); i >= 0 {
+		pos := first[i+4:]
+		if j := strings.Index(pos, "/repo/"); j >= 0 {
+			pos = pos[j+6:]
+		}
+		if j := strings.IndexByte(pos, ':'); j > 0 {
+			pos = pos[:j]
+		}
+		kind := first[:i]
+		if k := strings.IndexAny(kind, "[0123456789\"⟨"); k > 0 {
+			kind = strings.TrimSpace(kind[:k])
+		}
+		return pos + ":" + strings.ReplaceAll(kind, " ", "_")
+	}
+	return strings.ReplaceAll(first, " ", "_")
 }
